@@ -72,8 +72,9 @@ def num_gradient(method, grids, values, x, dist, opts=None, rng=None, count=None
         cond = float(np.abs(np.asarray(d1).ravel() - np.asarray(d0).ravel()).max()) / 1e-12
     ref = np.empty(nd)
     tol = np.empty(nd)
+    xform = R.deriv_expanded_roundoff(method, grids, x, vmax)
     for ax in range(nd):
-        base = 5.0 * delta / dist[ax] + 64 * R.EPS * cond
+        base = 5.0 * delta / dist[ax] + 64 * R.EPS * cond + xform[ax]
         if method not in R.SCIPY_ORDER:
             xc = np.array(x, dtype=complex)
             xc[ax] += 1j * CS
@@ -178,6 +179,18 @@ def judge_splinemulti(case, acc):
         prob.model.add_subsystem('c', c)
         for k in range(S):
             prob.model.connect('ivc.' + ycp[k], 'c.' + ycp[k])
+        if case.get('decoy'):
+            # a second SplineComp with the SAME spline names and sizes, other control values, computed after 'c':
+            # whatever it leaves behind (class-level / module-level state) must not show in the totals of 'c'
+            kw2 = dict(kw, x_interp_val=xi.copy())
+            if 'x_cp_val' in kw2:
+                kw2['x_cp_val'] = grid.copy()
+            d = om.SplineComp(**kw2)
+            for k in order[::-1]:
+                d.add_spline(y_cp_name=ycp[k], y_interp_name=ys[k], y_cp_val=(V[k][::-1, ::-1] * 0.7 + 0.05).copy(),
+                             y_units=units[k][0] if units[k] else None)
+            prob.model.add_subsystem('d', d)
+            acc.count('obs:splinemulti:decoy-component')
         prob.setup(force_alloc_complex=not linear)
     except Exception as e:
         rep.viol('raises:%s@%s:splinemulti-setup:%s' % (type(e).__name__, C._where(e), method), str(e)[:200])
@@ -388,6 +401,9 @@ def judge_tablemulti(case, acc):
     if max(d.max() / vm for d, vm in zip(delta, vmax)) > C.ILL:
         acc.skip('ill-conditioned-grid')
         return
+    # round-off of the derivative formulas written in expanded coordinates (general lagrange tables), (K, nd) each
+    xform = [np.array([R.deriv_expanded_roundoff(method, grids, x, vm, semi=(comp == 'semi')) for x in X])
+             for vm in vmax]
     names = ['x%d' % d for d in range(nd)]
     fs = ['f%d' % k for k in range(S)]
     trains = [f + '_train' for f in fs]
@@ -415,6 +431,24 @@ def judge_tablemulti(case, acc):
             for k in order:
                 c.add_output(fs[k], training_data=shape_t(tables[k]))
         prob.model.add_subsystem('c', c, promotes=['*'])
+        if case.get('decoy'):
+            # a second component of the same class with the SAME variable names, other tables, computed after 'c'
+            if comp == 'mmsc':
+                d = om.MetaModelStructuredComp(method=method, extrapolate=True, vec_size=K,
+                                               training_data_gradients=tdg)
+                for n, g in zip(names, grids):
+                    d.add_input(n, 0.5 * (g[0] + g[-1]), training_data=g.copy())
+                for k in order[::-1]:
+                    d.add_output(fs[k], 0.0, training_data=shape_t(tables[k][::-1] * 0.7 + 0.05))
+            else:
+                d = om.MetaModelSemiStructuredComp(method=method, extrapolate=True, vec_size=K,
+                                                   training_data_gradients=tdg)
+                for n, g, m in zip(names, grids, mesh):
+                    d.add_input(n, training_data=m.ravel().copy(), val=0.5 * (g[0] + g[-1]))
+                for k in order[::-1]:
+                    d.add_output(fs[k], training_data=shape_t(tables[k][::-1] * 0.7 + 0.05))
+            prob.model.add_subsystem('d', d)
+            acc.count('obs:tablemulti:decoy-component')
         prob.setup(force_alloc_complex=not scipy)
         return prob
 
@@ -504,7 +538,8 @@ def judge_tablemulti(case, acc):
                 acc.count('obs:tablemulti:judged-' + where(k))
                 if not scipy:
                     ref = Fc[k].imag / CS
-                    tol = 2 * (5.0 * delta[k] / dist[:, ax] + (64 * R.EPS * cond_x[k][:, ax] if akima else 0.0))
+                    tol = 2 * (5.0 * delta[k] / dist[:, ax] + xform[k][:, ax]
+                               + (64 * R.EPS * cond_x[k][:, ax] if akima else 0.0))
                     rep.judged = True
                     if not np.all(np.abs(Fc[k].real - F[k]) <= 2 * delta[k]):
                         rep.viol('tablemulti:complex-step-changes-value:' + tag,
@@ -598,7 +633,8 @@ def judge_tablemulti(case, acc):
             k = fs.index(key[0])
             if key[1] in names:
                 ax = names.index(key[1])
-                tk = np.diag(2 * (5.0 * delta[k] / dist[:, ax] + (64 * R.EPS * cond_x[k][:, ax] if akima else 0.0)))
+                tk = np.diag(2 * (5.0 * delta[k] / dist[:, ax] + xform[k][:, ax]
+                                  + (64 * R.EPS * cond_x[k][:, ax] if akima else 0.0)))
                 tk = tk + np.zeros((K, K))
             else:
                 tk = (2 * (8 * delta[k] / vmax[k] + (64 * R.EPS * cond_t[k] if akima else 0.0)))[:, None]
@@ -963,7 +999,8 @@ def _cache_semi(case, acc, rep, C):
                 xc[0, ax] += 1j * CS
                 ref[ax] = np.asarray(make().interpolate(xc)).ravel()[0].imag / CS
                 acc.count('obs:ref:complex-step')
-            refs.append((ref, 2 * (5.0 * delta / dist + 64 * R.EPS * cond), delta))
+            refs.append((ref, 2 * (5.0 * delta / dist + 64 * R.EPS * cond
+                                   + R.deriv_expanded_roundoff(method, grids, x, vmax, semi=True)), delta))
     except Exception as e:
         rep.viol('raises:%s@%s:cachestate-reference:semi:%s' % (type(e).__name__, C._where(e), method), str(e)[:200])
         return
@@ -1107,7 +1144,8 @@ def required_counters(GENERAL, FIXED, SPLINE):
     return (['obs:splinemulti:splines', 'obs:splinemulti:foreign-block', 'obs:splinemulti:complex-step',
              'obs:splinemulti:euler', 'obs:splinemulti:identity', 'obs:splinemulti:jacobian-same-for-all-splines',
              'obs:splinemulti:judged-first', 'obs:splinemulti:judged-middle', 'obs:splinemulti:judged-last',
-             'obs:splinemulti:single-of', 'obs:splinemulti:revisit',
+             'obs:splinemulti:single-of', 'obs:splinemulti:revisit', 'obs:splinemulti:decoy-component',
+             'obs:tablemulti:decoy-component',
              'obs:tablemulti:outputs', 'obs:tablemulti:d_dx-complex-step', 'obs:tablemulti:d_dx-fd7',
              'obs:tablemulti:foreign-block', 'obs:tablemulti:d_dtrain-complex-step', 'obs:tablemulti:d_dtrain-euler',
              'obs:tablemulti:d_dtrain-identity', 'obs:tablemulti:jacobian-same-for-all-outputs',
@@ -1131,6 +1169,7 @@ def required_counters(GENERAL, FIXED, SPLINE):
 def cases(tier, seed, rng, base, akima_opts, GENERAL, FIXED, SPLINE):
     """Case list of the parts of this kit (`base` / `akima_opts` are the check module's case helpers)."""
     out = []
+    rng_d = np.random.default_rng(77 + 1000003 * seed + (0 if tier == 'quick' else 1))
     reps = {'quick': {'splinemulti': 2, 'tablemulti': 1, 'interleave': 6, 'cachestate': 1},
             'thorough': {'splinemulti': 40, 'tablemulti': 20, 'interleave': 120, 'cachestate': 20}}[tier]
 
@@ -1182,6 +1221,8 @@ def cases(tier, seed, rng, base, akima_opts, GENERAL, FIXED, SPLINE):
             c = base('tablemulti', m, 2, hi=6)
             c.update(comp=comp, vec=3, n_out=3, tdg=True, revisit=False)
             out.append(c)
+    for c in out:
+        c['decoy'] = bool(rng_d.random() < 0.4)
     # ---- interleave
     def inter_case(methods, nd, same_grid):
         lo = max(2 if m in R.SCIPY_ORDER else R.MIN_POINTS.get(m, 4) for m in methods)
